@@ -2,6 +2,18 @@ V = "dns/versioned.py"
 
 CANARIES = [
     {
+        "id": "C12-commit-failure-wedges-zone",
+        "prop": "C12",
+        "what": "a failing commit does not release the write slot (the repaired defect b91aec2)",
+        "edits": [{"file": "dns/zone.py", "old": "                self.zone._end_write(self)  # pyright: ignore\n                raise\n", "new": "                raise\n"}],
+    },
+    {
+        "id": "C12-setup-failure-wedges-zone",
+        "prop": "C12",
+        "what": "a failing deferred version setup does not release the write slot (the repaired defect ebd9a19)",
+        "edits": [{"file": V, "old": "            self._end_write(self._write_txn)\n            raise\n", "new": "            raise\n"}],
+    },
+    {
         "id": "C12-drop-event-test",
         "prop": "C12",
         "what": "writer(): admission no longer requires event == self._write_event (newcomers can take cuts)",
